@@ -2,7 +2,7 @@
    Only statements closed by `exact <lemma>` and their Print Assumptions.
    report lists are compared for equality as lists (pre-order of the file, one entry per call). *)
 From TL Require Import Lib.Base Lib.GenTypes Model.RustSafetyTypes Model.RustSafetySpec Gen.RustSafetyGen Model.RustSafety
-     Actual.RustSafetyActual Proofs.RustSafetyWalk Proofs.RustSafetyCtx Proofs.RustSafetyEmit Proofs.RustSafetyMain.
+     Actual.RustSafetyActual Proofs.RustSafetyWalk Proofs.RustSafetyCtx Proofs.RustSafetyEmit Proofs.RustSafetyMain Proofs.RustSafetyPlain.
 
 (* 1. unwrap-abuse: for every quirk vector whose relevant flags are off, every configuration and every
       file, the model reports exactly every .unwrap() — and every .expect() when allow_expect is off —
@@ -52,13 +52,34 @@ Print Assumptions C17_unwrap_actual_partial.
 Theorem C17_clone_actual_partial : forall c file,
   clone_switches_on (c_clone c) = true -> file_guard LClone rust_actual file = true ->
   clone_report rust_actual c file = spec_clone_report c file.
-Proof. intros c file H. exact (clone_guarded rust_actual c file (or_intror H)). Qed.
+Proof. exact (fun c file H => clone_guarded rust_actual c file (or_intror H)). Qed.
 Print Assumptions C17_clone_actual_partial.
 
 Theorem C17_blocking_actual_partial : forall c file,
   file_guard LBlocking rust_actual file = true -> blocking_report rust_actual c file = spec_blocking_report c file.
 Proof. exact (blocking_guarded rust_actual). Qed.
 Print Assumptions C17_blocking_actual_partial.
+
+(* 5b. the same confinement with a syntactic description of the defect classes (Proofs/RustSafetyPlain.v::plain_ok):
+      no reportable call inside a macro invocation; no comment among an item's attributes, "test" / "cfg(test)"
+      occurring in an attribute text exactly when the attribute marks a test function / implies cfg(test);
+      method calls on the line where their receiver chain starts; no clone in a `for` iterator expression;
+      no NetType::method call path. *)
+Theorem C17_unwrap_actual_plain_partial : forall c file,
+  file_plain LUnwrap file = true -> unwrap_report rust_actual c file = spec_unwrap_report c file.
+Proof. exact unwrap_actual_plain. Qed.
+Print Assumptions C17_unwrap_actual_plain_partial.
+
+Theorem C17_clone_actual_plain_partial : forall c file,
+  clone_switches_on (c_clone c) = true -> file_plain LClone file = true ->
+  clone_report rust_actual c file = spec_clone_report c file.
+Proof. exact clone_actual_plain. Qed.
+Print Assumptions C17_clone_actual_plain_partial.
+
+Theorem C17_blocking_actual_plain_partial : forall c file,
+  file_plain LBlocking file = true -> blocking_report rust_actual c file = spec_blocking_report c file.
+Proof. exact blocking_actual_plain. Qed.
+Print Assumptions C17_blocking_actual_plain_partial.
 
 (* 6. switches: allow_expect removes exactly the expect-call reports; a blocking class's detect_* option
       removes exactly that class's reports; a clone pattern whose detect_* option is off is never reported *)
@@ -83,8 +104,11 @@ Print Assumptions C17_switch_clone_off.
 Theorem C17_documented_tables :
   blocking_fs_functions = fs_functions /\ blocking_net_types = net_types /\ async_wrapper_functions = wrapper_names /\
   blocking_classes_of ideal = spec_blocking_classes /\
-  map fst unwrap_cfg = ["enabled"; "allow_in_tests"; "allow_expect"] /\ forallb (fun e => snd (snd e)) (unwrap_cfg ++ clone_cfg ++ blocking_cfg) = true.
-Proof. repeat split. Qed.
+  map fst unwrap_cfg = ["enabled"; "allow_in_tests"; "allow_expect"] /\
+  map fst clone_cfg = ["enabled"; "allow_in_tests"; "detect_clone_in_loop"; "detect_clone_chain"; "detect_unnecessary_clone"] /\
+  map fst blocking_cfg = ["enabled"; "allow_in_tests"; "detect_fs_in_async"; "detect_sleep_in_async"; "detect_net_in_async"] /\
+  forallb (fun e => String.eqb (fst e) (fst (snd e)) && snd (snd e)) (unwrap_cfg ++ clone_cfg ++ blocking_cfg) = true.
+Proof. exact documented_tables. Qed.
 Print Assumptions C17_documented_tables.
 
 (* non-vacuity: a file in the domain, inside the guard of the faithful model for all three linters, with
@@ -100,7 +124,7 @@ Definition strict : config :=
   {| c_unwrap := [("allow_in_tests", false); ("allow_expect", false)]; c_clone := [("allow_in_tests", false)]; c_blocking := [] |}.
 Example C17_nonvacuous :
   file_domain ex_file = true /\
-  file_guard LUnwrap rust_actual ex_file = true /\ file_guard LClone rust_actual ex_file = true /\ file_guard LBlocking rust_actual ex_file = true /\
+  file_plain LUnwrap ex_file = true /\ file_plain LClone ex_file = true /\ file_plain LBlocking ex_file = true /\
   spec_report {| c_unwrap := []; c_clone := []; c_blocking := [] |} ex_file =
     [("clone-abuse.clone-in-loop", 12, 8); ("blocking-async.fs-in-async", 14, 4)] /\
   spec_report strict ex_file =
